@@ -156,6 +156,8 @@ type addrWorld struct {
 	nop   int
 	socks map[int]tcpip.Endpoint // bound UDP sockets by (kind, index)
 	lep   tcpip.Endpoint
+	// addresses currently removed from their interface (the first IPv4 address of NIC 1 comes and goes)
+	removed map[tcpip.Address]bool
 }
 
 // macOf is the link address of neighbour a on NIC nic.
@@ -166,7 +168,7 @@ func macOf(a tcpip.Address, nic int) tcpip.LinkAddress {
 
 func (w *addrWorld) nicHas(nic int, a tcpip.Address) bool {
 	for _, x := range adNICAddrs[nic] {
-		if x == a {
+		if x == a && !w.removed[x] {
 			return true
 		}
 	}
@@ -175,7 +177,7 @@ func (w *addrWorld) nicHas(nic int, a tcpip.Address) bool {
 
 func (w *addrWorld) nicHasProto(nic int, n int) bool {
 	for _, x := range adNICAddrs[nic] {
-		if len(x) == n {
+		if len(x) == n && !w.removed[x] {
 			return true
 		}
 	}
@@ -403,6 +405,9 @@ func (w *addrWorld) udpSend(s Step) {
 		port = 7200 + uint16(cnic)
 		key = 300 + cnic
 	}
+	if local != "" && w.removed[local] {
+		return // (a socket bound to an address that has been removed: documented to linger, not judged)
+	}
 	if key >= 0 && w.socks[key] != nil {
 		ep = w.socks[key]
 	} else {
@@ -545,6 +550,9 @@ func (w *addrWorld) inbound(s Step) {
 	l := w.links[nic]
 	locals := adNICAddrs[nic]
 	local := locals[s.B%len(locals)]
+	if w.removed[local] {
+		return
+	}
 	v6 := len(local) == 16
 	var remote tcpip.Address
 	var viaMAC tcpip.LinkAddress
@@ -674,8 +682,8 @@ func (w *addrWorld) connect(s Step) {
 	var local tcpip.Address
 	if s.B%3 == 2 {
 		local = adLocal[s.C%len(adLocal)]
-		if len(local) != len(dst) {
-			return
+		if len(local) != len(dst) || w.removed[local] {
+			return // (binding to a removed address that still lingers may succeed: documented, not judged)
 		}
 	}
 	w.nop++
@@ -743,6 +751,30 @@ func (w *addrWorld) apply(s Step) {
 		w.reconnSend(s)
 	case "ping":
 		w.pingSend(s)
+	case "rmaddr":
+		// the first address of NIC 1 is removed (sockets that use it may keep it alive for themselves - what
+		// they send is not judged meanwhile); everybody else's packets come from an address the interface
+		// still has. Later it is assigned again.
+		a := adNICAddrs[1][0]
+		l := w.links[1]
+		if w.removed[a] {
+			if e := w.s.AddAddress(1, ipv4.ProtocolNumber, a); e == nil {
+				delete(w.removed, a)
+				if l.Addrs != nil {
+					l.Addrs = append(l.Addrs, a)
+				}
+				w.Probes["address_assigned_again"]++
+			}
+		} else if e := w.s.RemoveAddress(1, a); e == nil {
+			w.removed[a] = true
+			for i, x := range l.Addrs {
+				if x == a {
+					l.Addrs = append(l.Addrs[:i:i], l.Addrs[i+1:]...)
+					break
+				}
+			}
+			w.Probes["address_removed"]++
+		}
 	case "in":
 		w.inbound(s)
 	case "connect":
@@ -755,7 +787,9 @@ func (w *addrWorld) apply(s Step) {
 
 func (w *addrWorld) next() Step {
 	r := w.Rng
-	switch r.Pick(10, 6, 3, 2, 3, 2) {
+	switch r.Pick(10, 6, 3, 2, 3, 2, 1) {
+	case 6:
+		return Step{Op: "rmaddr"}
 	case 5:
 		return Step{Op: "ping", A: r.Intn(len(adDst)), C: r.Intn(65536), D: int64([]int{0, 1, 2, 3, 8, 55, 56, 57, 1000}[r.Intn(9)])}
 	case 4:
@@ -776,7 +810,7 @@ func (scAddr) Run(t *testing.T, prop string, seed uint64, cfgRaw json.RawMessage
 	json.Unmarshal(cfgRaw, &cfg)
 	o := &RunOut{Cfg: cfgRaw}
 	bubble(t, func() {
-		w := &addrWorld{World: NewWorld(seed), cfg: cfg, seed: seed, socks: map[int]tcpip.Endpoint{}}
+		w := &addrWorld{World: NewWorld(seed), cfg: cfg, seed: seed, socks: map[int]tcpip.Endpoint{}, removed: map[tcpip.Address]bool{}}
 		defer w.Close()
 		w.TraceOn = trace
 		rand.VerifSeed(sim.Mix(seed ^ 0x7a5d))
